@@ -582,6 +582,9 @@ where
         output.on_conn_error(error);
         input.on_conn_error(error);
         listener.on_conn_error(error);
+        // tasks parked in open_bi/open_uni on the stream limit: still under the guards, so a
+        // concurrent poll either registered before (and is woken here) or sees the error
+        self.stream_ids.local.wake_all();
     }
 }
 
